@@ -1,21 +1,27 @@
 // C19 — error classes survive wrapping and the gRPC boundary (exhaustive cross product, DESIGN §3 C19).
 //
-// Every general error class that has a gRPC code is wrapped in every chain of fmt.Errorf("%w") layers
-// of depth 0..4 whose layer texts come from a fixed corpus, with an object embedded at the innermost
-// level, at the outermost level or not at all. Each chain is sent through GRPCWrap and the result is
-// asked for every one of the twelve classes. The code -> class direction is enumerated over all 17
-// gRPC codes.
+// Every general error class that has a gRPC code (the sentinel itself, and real OS errors that are of
+// the class through an Is method) is wrapped in every chain of wrapping layers up to a depth bound. A
+// layer is fmt.Errorf with one %w and a text from a fixed corpus, or one of the non-linear shapes
+// (two %w, errors.Join, a custom type with Unwrap() []error, each with the class on either side of an
+// unrelated error). An object is embedded at the innermost level, at the outermost level or not at
+// all. Each chain is sent through GRPCWrap and the result is asked for every one of the twelve
+// classes. The code -> class direction is enumerated over all 17 gRPC codes.
 package c19
 
 import (
 	"encoding/json"
+	"errors"
 	"fmt"
+	"io/fs"
 	"os"
+	"path/filepath"
 	"reflect"
 	"runtime"
 	"strings"
 	"sync"
 	"sync/atomic"
+	"syscall"
 	"testing"
 
 	gerrors "github.com/acquirecloud/golibs/errors"
@@ -59,12 +65,48 @@ func classByName(n string) (int, bool) {
 	return 0, false
 }
 
-// layer is one fmt.Errorf layer: the message becomes Pre + inner message + Suf.
+// layer is one wrapping layer: the message becomes Pre + inner message + Suf. Shape "" is
+// fmt.Errorf with a single %w; the other shapes put the unrelated error sideErr next to the inner one.
 type layer struct {
-	Name string `json:"name"`
-	Pre  string `json:"pre"`
-	Suf  string `json:"suf"`
+	Name  string `json:"name"`
+	Shape string `json:"shape,omitempty"`
+	Pre   string `json:"pre"`
+	Suf   string `json:"suf"`
 }
+
+// sideErr is the unrelated error of the non-linear shapes: a plain text error that is in no class.
+var sideErr = errors.New("side failure")
+
+const (
+	shapeWWLeft     = "ww-left"     // fmt.Errorf("%w: and %w", side, inner)
+	shapeWWRight    = "ww-right"    // fmt.Errorf("%w: caused by %w", inner, side)
+	shapeJoinLeft   = "join-left"   // errors.Join(side, inner)
+	shapeJoinRight  = "join-right"  // errors.Join(inner, side)
+	shapeMultiPtr   = "multi-ptr"   // *multiPtr{side, inner}: only Unwrap() []error, comparable type
+	shapeMultiSlice = "multi-slice" // multiSlice{inner, side}: only Unwrap() []error, slice type (not comparable)
+)
+
+var shapes = []layer{
+	{"two-w-side-first", shapeWWLeft, "side failure: and ", ""},
+	{"two-w-side-last", shapeWWRight, "", ": caused by side failure"},
+	{"join-side-first", shapeJoinLeft, "side failure\n", ""},
+	{"join-side-last", shapeJoinRight, "", "\nside failure"},
+	{"multi-unwrap-pointer", shapeMultiPtr, "several: side failure; ", " (2 errors)"},
+	{"multi-unwrap-slice", shapeMultiSlice, "[", " | side failure]"},
+}
+
+// multiPtr and multiSlice implement only Unwrap() []error.
+type multiPtr struct{ errs []error }
+
+func (m *multiPtr) Error() string {
+	return "several: " + m.errs[0].Error() + "; " + m.errs[1].Error() + " (2 errors)"
+}
+func (m *multiPtr) Unwrap() []error { return m.errs }
+
+type multiSlice []error
+
+func (m multiSlice) Error() string   { return "[" + m[0].Error() + " | " + m[1].Error() + "]" }
+func (m multiSlice) Unwrap() []error { return m }
 
 var corpus = []layer{
 	{"empty", "", ""},
@@ -90,6 +132,20 @@ var corpusThorough = []layer{
 }
 
 func (l layer) wrap(inner error) error {
+	switch l.Shape {
+	case shapeWWLeft:
+		return fmt.Errorf("%w: and %w", sideErr, inner)
+	case shapeWWRight:
+		return fmt.Errorf("%w: caused by %w", inner, sideErr)
+	case shapeJoinLeft:
+		return errors.Join(sideErr, inner)
+	case shapeJoinRight:
+		return errors.Join(inner, sideErr)
+	case shapeMultiPtr:
+		return &multiPtr{[]error{sideErr, inner}}
+	case shapeMultiSlice:
+		return multiSlice{inner, sideErr}
+	}
 	esc := func(s string) string { return strings.ReplaceAll(s, "%", "%%") }
 	return fmt.Errorf(esc(l.Pre)+"%w"+esc(l.Suf), inner)
 }
@@ -104,22 +160,41 @@ type payload struct {
 
 type object struct {
 	name string
+	deep bool // crossed with every chain; the others with the chains of depth <= shallowDepth
 	val  any
 	out  func() any        // fresh pointer to decode into
 	get  func(ptr any) any // the decoded value
 }
 
 var objects = []object{
-	{"hostile-struct",
+	{"hostile-struct", true,
 		payload{Name: "\x1bjson: {\"a\":1} \x1bjso son\x1b \"quoted\"", N: -1 << 63, Tags: []string{"", ":", "\n", "日本語", "\x1b", "json"}, Inner: &payload{Name: "in", N: 7, Tags: []string{"x"}}},
 		func() any { return new(payload) }, func(p any) any { return *p.(*payload) }},
-	{"map",
+	{"map", true,
 		map[string]any{"k": "v: w", "n": 1.5, "l": []any{"a", true, nil, "\x1bjson"}, "o": map[string]any{}},
 		func() any { return new(map[string]any) }, func(p any) any { return *p.(*map[string]any) }},
-	{"marker-string",
+	{"marker-string", true,
 		"just \x1bjson text with the marker \x1bjson in it",
 		func() any { return new(string) }, func(p any) any { return *p.(*string) }},
+	// objects whose JSON contains the per cent sign
+	strObject("pct-full", "97% full"),
+	strObject("pct-v", "%v"),
+	strObject("pct-url", "a%20b"),
+	strObject("pct-w", "%w"),
+	strObject("pct-pct", "100%%"),
+	{"pct-map", false,
+		map[string]any{"50%": "half", "k%d": 1.0, "q": "x%", "%s": []any{"%!", "%"}},
+		func() any { return new(map[string]any) }, func(p any) any { return *p.(*map[string]any) }},
+	{"pct-struct", false,
+		payload{Name: "disk is 97% full; %s %d %+v %[1]w %", N: 100, Tags: []string{"%", "%%", "a%20b"}},
+		func() any { return new(payload) }, func(p any) any { return *p.(*payload) }},
 }
+
+func strObject(name, v string) object {
+	return object{name, false, v, func() any { return new(string) }, func(p any) any { return *p.(*string) }}
+}
+
+const shallowDepth = 2
 
 const (
 	embNone  = "none"
@@ -130,6 +205,7 @@ const (
 // kase is one wrapping chain (the witness of a violation).
 type kase struct {
 	Class  string  `json:"class"`
+	Root   string  `json:"root,omitempty"` // a real OS error of the class instead of the sentinel
 	Layers []layer `json:"layers"` // innermost first
 	Embed  string  `json:"embed"`
 	Object string  `json:"object,omitempty"`
